@@ -233,6 +233,68 @@ Fixpoint dp_loop (cs : seq nat) (prev : table) : result :=
   else Cost (Some 0).                                                  (* no columns: score 0 *)
 Definition dp_cost : result := dp_loop (iota 0 (i_ncols I)) prev0.
 
+(* ------------------------------------------------------------ back-pointers and backtrace *)
+(* What compute_column leaves behind for column c: the current costs, the projection column it read
+   and the DP column. The back-pointer tables are functions of these (below); the sqrt(n)
+   check-pointing of compute_table only decides WHEN a column is (re)computed, not its content. *)
+Record colrec := ColRec { cr_lrows : table; cr_prev : table; cr_col : table }.
+Fixpoint dp_forward (cs : seq nat) (prev : table) : option (seq colrec) :=
+  if cs is c :: cs' then
+    let lr := local_rows c in
+    if conflict_in lr then None
+    else
+      let col := dp_column c lr prev in
+      if cs' is [::] then Some [:: ColRec lr prev col]
+      else omap (cons (ColRec lr prev col)) (dp_forward cs' (project c col))
+  else Some [::].
+
+(* `if (val < min) { min = val; min_index = j; }` : the first strict minimum, with its index *)
+Definition olt (x y : option nat) : bool := ~~ ole y x.
+Definition argmin (A : Type) (d : A) (s : seq (A * option nat)) : option nat * A :=
+  foldl (fun st av => if olt av.2 st.1 then (av.2, av.1) else st) (None, d) s.
+(* GrayCodes: the reflected binary Gray code, bit j of the index = j-th active read *)
+Fixpoint gray (m : nat) : seq (seq bool) :=
+  if m is m'.+1 then [seq rcons v false | v <- gray m'] ++ [seq rcons v true | v <- rev (gray m')]
+  else [:: [::]].
+
+(* min_recomb_index[t] of the cell (x, t): val_j = current + previous_j (+ popcount * recombcost) *)
+Definition recomb_arg (c : nat) (r : colrec) (x : seq bool) (t : nat) : nat :=
+  let lc := tlook (cr_lrows r) x t in
+  let prow := lookup (cr_prev r) (take (bw c) x) in
+  let rc := recomb c in
+  let nb := 2 * ntrios in
+  (argmin 0 [seq (j, oadd (oadd lc (nth None prow j)) (Some (hamming nb t j * rc))) | j <- ts]).2.
+(* index_backtrace_table[c][s][t]: the first bipartition in Gray-code order whose cell attains the
+   forward projection minimum *)
+Definition back_index (c : nat) (r : colrec) (s : seq bool) (t : nat) : seq bool :=
+  let fm := fmask c in
+  (argmin [::] [seq (x, tlook (cr_col r) x t) | x <- gray (size (active c)) & mask fm x == s]).2.
+(* optimal_score_index / optimal_transmission_value in the last column *)
+Definition final_arg (c : nat) (r : colrec) : option nat * (seq bool * nat) :=
+  argmin ([::], 0) [seq ((x, t), tlook (cr_col r) x t) | x <- gray (size (active c)), t <- ts].
+(* the backtrace loop of compute_table, from column cnext (index x, transmission value p of the
+   column before it) down to column 0; recs = columns cnext-1, ..., 0 *)
+Fixpoint backtrace (recs : seq (nat * colrec)) (cnext : nat) (x : seq bool) (p : nat) : seq (seq bool * nat) :=
+  if recs is cr :: rest then
+    let x' := back_index cr.1 cr.2 (take (bw cnext) x) p in
+    (x', p) :: backtrace rest cr.1 x' (recomb_arg cr.1 cr.2 x' p)
+  else [::].
+(* index_path; None = the solver raised *)
+Definition dp_path : option (seq (seq bool * nat)) :=
+  if dp_forward (iota 0 (i_ncols I)) prev0 is Some recs then
+    if rev (zip (iota 0 (i_ncols I)) recs) is cr :: rest then
+      let fa := final_arg cr.1 cr.2 in
+      Some (rev ((fa.2.1, fa.2.2) :: backtrace rest cr.1 fa.2.1 (recomb_arg cr.1 cr.2 fa.2.1 fa.2.2)))
+    else Some [::]
+  else None.
+(* get_optimal_partitioning (the bit of a read is taken from the last column in which it is active)
+   and the transmission vector of get_super_reads *)
+Definition witness_of (path : seq (seq bool * nat)) : seq bool * seq nat :=
+  ([seq (let c := r_last (rd i) in nth false (nth ([::], 0) path c).1 (index i (active c)))
+   | i <- iota 0 nreads],
+   [seq e.2 | e <- path]).
+Definition dp_witness : option (seq bool * seq nat) := omap witness_of dp_path.
+
 (* ------------------------------------------------------------ specification side *)
 (* the PedMEC objective of a bipartition beta (one bit per read) and a transmission vector tau
    (one value per column), with the best admissible allele assignment per column *)
@@ -310,6 +372,12 @@ Definition l2_cost (I : inst) (o : outcome) : bool :=
   match o with
   | None => result_eqb (dp_cost I) Conflict
   | Some (cost, _, _, _) => result_eqb (dp_cost I) (Cost (Some cost))
+  end.
+(* L2: returned partition and transmission vector = the model's backtrace (incl. tie-breaking) *)
+Definition l2_witness (I : inst) (o : outcome) : bool :=
+  match o with
+  | None => dp_witness I == None
+  | Some (_, beta, tau, _) => dp_witness I == Some (beta, tau)
   end.
 (* L2: super-read alleles and qualities = get_alleles at the implementation's own witness *)
 Definition l2_alleles (I : inst) (o : outcome) : bool :=
